@@ -82,6 +82,7 @@ func nickRun(e *Env) {
 		}
 	}
 	pre433 := g.W(4, 3, 2, 1)
+	welcomeForm := g.W(3, 2, 1)
 	welcomeDifferent := g.W(6, 2, 1) // 0 same, 1 truncated, 2 unrelated
 	nEvents := g.Range(0, 10)
 	type ev struct{ kind, arg int }
@@ -208,7 +209,15 @@ func nickRun(e *Env) {
 			}
 		}
 		serverNick = final
-		l.SendLine(":irc.sim 001 " + final + " :Welcome to the sim " + final + "!ident@host.sim")
+		// servers differ in whether the welcome text ends in nick!user@host
+		switch welcomeForm {
+		case 0:
+			l.SendLine(":irc.sim 001 " + final + " :Welcome to the sim " + final + "!ident@host.sim")
+		case 1:
+			l.SendLine(":irc.sim 001 " + final + " :Welcome to the Internet Relay Network " + final)
+		default:
+			l.SendLine(":irc.sim 001 " + final + " :Welcome")
+		}
 		others = []string{final + "_", final[:len(final)/2+1] + "~o", "zed"}
 		joined = false
 		stage = "welcomed"
@@ -473,9 +482,15 @@ func regRun(e *Env) {
 	type tokT struct{ send, want string }
 	toks := []tokT{{":tok", "tok"}, {":with space", "with space"}, {"plain", "plain"}, {":", ""}, {"::colon", ":colon"}, {":a :b", "a :b"},
 		{":" + strings.Repeat("L", 480), strings.Repeat("L", 480)}, {":12345", "12345"}}
+	slowServer := sslMode == 0 && g.Pct(40)
 	e.LinkPlan = func(l *simnet.Link) {
 		l.ChunkMode = g.Intn(4)
 		l.Opaque = sslMode == 2
+		if slowServer {
+			// the server reads only now and then: the client's writes block on a
+			// full window, in the middle of a line
+			l.Window = []int{16, 64, 300}[g.Intn(3)]
+		}
 	}
 	var p *peer
 	var got []string // client lines of the current connection
@@ -599,6 +614,24 @@ func regRun(e *Env) {
 		before := len(got)
 		var wantPongs []string
 		np := g.S.Choose(6)
+		// "interleaved with any other traffic": the client is sending lines of
+		// its own while the PINGs arrive
+		nChat := 0
+		chatDone := true
+		if g.S.Choose(2) == 0 {
+			nChat = 1 + g.S.Choose(30)
+			chatDone = false
+			conn := conn
+			e.S.Spawn(fmt.Sprintf("chatter%d", conn), func() {
+				for k := 0; k < nChat; k++ {
+					c.Privmsg("#r", fmt.Sprintf("chat %d.%d", conn, k))
+					if e.S.Choose(3) == 0 {
+						simrt.Sleep(time.Duration(e.S.Choose(50)) * time.Millisecond)
+					}
+				}
+				chatDone = true
+			})
+		}
 		for k := 0; k < np; k++ {
 			t := toks[g.S.Choose(len(toks))]
 			p.send("PING " + t.send)
@@ -606,25 +639,70 @@ func regRun(e *Env) {
 			if g.S.Choose(2) == 0 {
 				p.send(":op!o@h PRIVMSG " + curNick + " :noise")
 			}
+			if g.S.Choose(3) == 0 {
+				simrt.Sleep(time.Duration(e.S.Choose(100)) * time.Millisecond)
+			}
 		}
-		simrt.Settle(time.Duration(np)*7*time.Second + 20*time.Second)
+		// read slowly until everything expected has arrived (7 s per line covers
+		// every flood delay)
+		wantLines := np + nChat
+		deadlineAt := e.S.Now() + time.Duration(wantLines+4)*8*time.Second + 30*time.Second
+		count := func() int {
+			n := 0
+			for _, ln := range got[before:] {
+				if strings.HasPrefix(ln, "PONG") || strings.HasPrefix(ln, "PRIVMSG #r :chat ") {
+					n++
+				}
+			}
+			return n
+		}
+		for (count() < wantLines || !chatDone) && e.S.Now() < deadlineAt {
+			recvAll(500 * time.Millisecond)
+			simrt.Sleep(200 * time.Millisecond)
+		}
+		simrt.Settle(5 * time.Second)
 		recvAll(time.Second)
-		var pongs []string
+		var pongs, chats []string
 		for _, ln := range got[before:] {
-			if strings.HasPrefix(ln, "PONG") {
+			switch {
+			case strings.HasPrefix(ln, "PONG"):
 				pongs = append(pongs, ln)
+			case strings.HasPrefix(ln, "PRIVMSG #r :chat "):
+				chats = append(chats, ln)
+			case strings.HasPrefix(ln, "MODE ") || strings.HasPrefix(ln, "WHO ") || strings.HasPrefix(ln, "PING :"):
+			default:
+				e.Violation("garbage-on-the-wire", "connection %d: while answering PINGs among other traffic the client wrote %q", conn, clip(ln))
+				return
 			}
 		}
 		e.Check()
 		if strings.Join(pongs, "\n") != strings.Join(wantPongs, "\n") {
-			e.Violation("pong", "connection %d: server PINGs were answered by %s, want %s", conn, clipq(pongs), clipq(wantPongs))
+			e.Violation("pong", "connection %d: server PINGs were answered by %s, want %s (the client was sending %d lines of its own meanwhile; connected=%v)", conn, clipq(pongs), clipq(wantPongs), nChat, discs == 0)
+			return
+		}
+		for k, ln := range chats {
+			if ln != fmt.Sprintf("PRIVMSG #r :chat %d.%d", conn, k) {
+				e.Violation("garbage-on-the-wire", "connection %d: the client's own line %d arrived as %q", conn, k, clip(ln))
+				return
+			}
+		}
+		if len(chats) != nChat {
+			e.Violation("garbage-on-the-wire", "connection %d: %d of the client's own %d lines arrived while it was answering PINGs", conn, len(chats), nChat)
 			return
 		}
 		// own PINGs over an idle stretch
 		before = len(got)
 		D := []time.Duration{time.Minute, 10 * time.Minute, 37 * time.Minute}[g.S.Choose(3)]
 		t0 := e.S.Now()
-		simrt.Sleep(D)
+		if slowServer {
+			// keep draining so that the window never stalls the client's pinger
+			for e.S.Now()-t0 < D {
+				simrt.Sleep(5 * time.Second)
+				recvAll(time.Millisecond)
+			}
+		} else {
+			simrt.Sleep(D)
+		}
 		recvAll(time.Millisecond)
 		elapsed := e.S.Now() - t0
 		pings := 0
@@ -1058,6 +1136,19 @@ func logRun(e *Env) {
 		}
 	}
 	err := c.Connect()
+	// several sessions in quick succession, with traffic: the flood penalty
+	// carries over a reconnect, so a later PASS line may itself be held back
+	cycles := g.W(5, 2, 2, 1)
+	for k := 0; k < cycles; k++ {
+		simrt.Settle(time.Duration(g.Intn(4)) * time.Second)
+		for i := g.Intn(14); i > 0 && c.Connected(); i-- {
+			c.Privmsg("#c", "traffic before the next connection")
+		}
+		simrt.Settle(time.Duration(g.Intn(3)) * time.Second)
+		c.Close()
+		e.S.Count("fault.reconnect-with-password")
+		err = c.Connect()
+	}
 	simrt.Settle(2 * time.Minute)
 	c.Close()
 	simrt.Settle(10 * time.Second)
